@@ -27,14 +27,14 @@ HARNESSES = {
           bounded="player one: infosets of 2 and 3 actions + one single-action infoset; entries any f64 in [0,1]"),
     ],
     "C14": [
-        H("c14_import_case_multi_single", "lib", "C14.K.import_slow.accepts_iff", bounded="one multi-action infoset (2 actions) [+ one single-action infoset]; 2 entries x 1 pair with the concrete name pattern `multi_single`; weights ANY f64 (legal ones <= 1e300)"),
-        H("c14_import_case_single_multi", "lib", "C14.K.import_slow.accepts_iff", bounded="one multi-action infoset (2 actions) [+ one single-action infoset]; 2 entries x 1 pair with the concrete name pattern `single_multi`; weights ANY f64 (legal ones <= 1e300)"),
-        H("c14_import_case_repeat", "lib", "C14.K.import_slow.accepts_iff", bounded="one multi-action infoset (2 actions) [+ one single-action infoset]; 2 entries x 1 pair with the concrete name pattern `repeat`; weights ANY f64 (legal ones <= 1e300)"),
-        H("c14_import_case_two_actions", "lib", "C14.K.import_slow.accepts_iff", bounded="one multi-action infoset (2 actions) [+ one single-action infoset]; 2 entries x 1 pair with the concrete name pattern `two_actions`; weights ANY f64 (legal ones <= 1e300)"),
-        H("c14_import_case_missing_single", "lib", "C14.K.import_slow.accepts_iff", bounded="one multi-action infoset (2 actions) [+ one single-action infoset]; 2 entries x 1 pair with the concrete name pattern `missing_single`; weights ANY f64 (legal ones <= 1e300)"),
-        H("c14_import_case_unknown_infoset", "lib", "C14.K.import_slow.accepts_iff", bounded="one multi-action infoset (2 actions) [+ one single-action infoset]; 2 entries x 1 pair with the concrete name pattern `unknown_infoset`; weights ANY f64 (legal ones <= 1e300)"),
-        H("c14_import_case_illegal_action", "lib", "C14.K.import_slow.accepts_iff", bounded="one multi-action infoset (2 actions) [+ one single-action infoset]; 2 entries x 1 pair with the concrete name pattern `illegal_action`; weights ANY f64 (legal ones <= 1e300)"),
-        H("c14_import_case_illegal_single_action", "lib", "C14.K.import_slow.accepts_iff", bounded="one multi-action infoset (2 actions) [+ one single-action infoset]; 2 entries x 1 pair with the concrete name pattern `illegal_single_action`; weights ANY f64 (legal ones <= 1e300)"),
+        H("c14_import_case_multi_single", "lib", "C14.K.import_slow.accepts_iff", bounded="one multi-action infoset (2 actions) [+ one single-action infoset]; 2 entries x 1 pair with the concrete name pattern `multi_single`; weights ANY f64 (legal ones <= 1e300)", group="safe_rust", tier="thorough", timeout=2400),
+        H("c14_import_case_single_multi", "lib", "C14.K.import_slow.accepts_iff", bounded="one multi-action infoset (2 actions) [+ one single-action infoset]; 2 entries x 1 pair with the concrete name pattern `single_multi`; weights ANY f64 (legal ones <= 1e300)", group="safe_rust", tier="thorough", timeout=2400),
+        H("c14_import_case_repeat", "lib", "C14.K.import_slow.accepts_iff", bounded="one multi-action infoset (2 actions) [+ one single-action infoset]; 2 entries x 1 pair with the concrete name pattern `repeat`; weights ANY f64 (legal ones <= 1e300)", group="safe_rust", tier="thorough", timeout=2400),
+        H("c14_import_case_two_actions", "lib", "C14.K.import_slow.accepts_iff", bounded="one multi-action infoset (2 actions) [+ one single-action infoset]; 2 entries x 1 pair with the concrete name pattern `two_actions`; weights ANY f64 (legal ones <= 1e300)", group="safe_rust", tier="thorough", timeout=2400),
+        H("c14_import_case_missing_single", "lib", "C14.K.import_slow.accepts_iff", bounded="one multi-action infoset (2 actions) [+ one single-action infoset]; 2 entries x 1 pair with the concrete name pattern `missing_single`; weights ANY f64 (legal ones <= 1e300)", group="safe_rust", tier="thorough", timeout=2400),
+        H("c14_import_case_unknown_infoset", "lib", "C14.K.import_slow.accepts_iff", bounded="one multi-action infoset (2 actions) [+ one single-action infoset]; 2 entries x 1 pair with the concrete name pattern `unknown_infoset`; weights ANY f64 (legal ones <= 1e300)", group="safe_rust", tier="thorough", timeout=2400),
+        H("c14_import_case_illegal_action", "lib", "C14.K.import_slow.accepts_iff", bounded="one multi-action infoset (2 actions) [+ one single-action infoset]; 2 entries x 1 pair with the concrete name pattern `illegal_action`; weights ANY f64 (legal ones <= 1e300)", group="safe_rust"),
+        H("c14_import_case_illegal_single_action", "lib", "C14.K.import_slow.accepts_iff", bounded="one multi-action infoset (2 actions) [+ one single-action infoset]; 2 entries x 1 pair with the concrete name pattern `illegal_single_action`; weights ANY f64 (legal ones <= 1e300)", group="safe_rust", tier="thorough", timeout=2400),
     ],
     "C19": [
         H("c19_distance_not_nan", "lib", "C19.K.distance.not_nan", bounded="one infoset of 2 actions / empty player; entries any f64 in [0,1]; p in {1, 2} (powf modelled exactly)"),
